@@ -74,3 +74,18 @@ func init() {
 		externFue: semverFx,
 	})
 }
+
+func init() {
+	g2lUnits = append(g2lUnits, &g2lUnit{
+		out: "FnTlogNote", ns: "TlogNote", pkgDir: "sumdb/tlog",
+		imports:     []string{"ModVerif.Basic.GoRtUtf8", "ModVerif.Generated.Facts"},
+		structNames: []string{"Tree"},
+		fns:         []string{"FormatTree", "ParseTree", "FormatRecord", "isValidRecordText", "ParseRecord"},
+		absTypes:    map[string]string{"Hash": "H"},
+		absFuncs:    map[string]string{"copy->Hash": "ofBytes", "Hash.String": "hashString", "base64.DecodeString": "b64dec"},
+		absCalls:    map[string]string{"base64.StdEncoding.DecodeString": "b64dec"},
+		absVars:     map[string]string{},
+		pkgVars:     map[string]string{"treePrefix": "(ModVerif.Generated.tlog_treePrefix)"},
+		absSigs:     map[string]string{"ofBytes": "Bytes → H", "hashString": "H → Bytes", "b64dec": "Bytes → (Bytes × Option String)"},
+	})
+}
